@@ -1,157 +1,14 @@
 import Secp.Gen.Misc
-import Secp.Proofs.ScalarCodecTies
-import Secp.Proofs.ScalarEnc
-import Secp.Proofs.Pratt
 import Secp.Proofs.ElementApiTiesConstr
 import Secp.Hand.Group
+import Secp.Hand.Scalar
 /-!
 # The remaining small functions, regenerated, equal the model: `Base`, `NewElement`, `Scalar.Set`, `Scalar.Copy`, the constants
-of `group.go`, and `Scalar.Pow` (through `math/big`, whose `SetBytes`, `Exp`, `Bytes` are modelled).
+of `group.go` (`Pow`: `PowTies`, `Random`: `RandomTies`)
 -/
 open Spec Hand Hand.Scalar
 
 namespace MiscTies
-
-theorem i2osp_zero (n : Nat) : i2osp 0 n = List.replicate n 0 := by
-  induction n with
-  | zero => rfl
-  | succ n ih => rw [i2osp_succ, ih]; simp [List.replicate_succ]
-
-/-- `big.Int.Bytes()` left-padded with zeros to `k` bytes is I2OSP, for every value that fits -/
-theorem natBytes_pad (k r : Nat) (hr : r < 256 ^ k) :
-    (Prim.natBytes r).length ≤ k ∧ List.replicate (k - (Prim.natBytes r).length) 0 ++ Prim.natBytes r = i2osp r k := by
-  induction k generalizing r with
-  | zero =>
-    have : r = 0 := by simpa using hr
-    subst this
-    rw [Prim.natBytes]; simp [i2osp]
-  | succ k ih =>
-    by_cases h0 : r = 0
-    · subst h0
-      rw [Prim.natBytes]; simp [i2osp_zero]
-    · rw [Prim.natBytes]
-      simp only [h0, dif_neg, not_false_eq_true]
-      have hq : r / 256 < 256 ^ k := by
-        rw [Nat.div_lt_iff_lt_mul (by norm_num)]; rw [pow_succ] at hr; exact hr
-      obtain ⟨hl, he⟩ := ih (r / 256) hq
-      constructor
-      · simp; omega
-      · have hsplit : i2osp r (k + 1) = i2osp (r / 256) k ++ [r % 256] := by
-          have := i2osp_append r k 1
-          simpa [i2osp, List.range_succ] using this
-        rw [hsplit, ← he]
-        simp only [List.length_append, List.length_singleton, Nat.add_sub_add_right, List.append_assoc]
-
-theorem order_val : GenMisc.order = some Hand.Group.order ∧ os2ip Hand.Group.order = N := by
-  constructor
-  · rfl
-  · decide +kernel
-
-theorem N_lt : N < 256 ^ 32 := by decide +kernel
-theorem N_gt : 1 < N := by decide +kernel
-
-/-- padding the minimal bytes of `r < n` to 32 bytes, whichever branch of `if l > 0` runs -/
-theorem pad_branch (r : Nat) (hr : r < 256 ^ 32) :
-    (do
-      let t4 ← Prim.subNat 32 (Prim.natBytes r).length
-      let l := t4
-      let bytes ← (if l > 0 then (do
-          let buf : List Nat := (List.replicate l 0)
-          let buf : List Nat := (buf ++ Prim.natBytes r)
-          let bytes : List Nat := buf
-          pure bytes) else (do
-          pure (Prim.natBytes r)))
-      pure bytes) = some (i2osp r 32) := by
-  obtain ⟨hl, he⟩ := natBytes_pad 32 r hr
-  unfold Prim.subNat
-  simp only [hl, if_true, Option.bind_eq_bind, Option.bind_some, Option.pure_def]
-  by_cases hpos : 32 - (Prim.natBytes r).length > 0
-  · simp only [hpos, if_true, he]
-  · have h0 : 32 - (Prim.natBytes r).length = 0 := by omega
-    simp only [hpos, if_false]
-    rw [h0] at he
-    simpa using congrArg some he
-
-/-- decoding a canonical 32-byte string with the regenerated `Decode` succeeds -/
-theorem decode_ok (s : L4) (r : Nat) (hr : r < N) :
-    GenScalarCodec.scalar_decode s (i2osp r 32) = some ((decode s (i2osp r 32)).2, none) := by
-  rw [ScalarCodecTies.decode_tie]
-  have hb := i2osp_isBytes r 32
-  have hacc : (decode s (i2osp r 32)).1 = none := by
-    obtain ⟨_, _, h2, _⟩ := sc_decode s (i2osp r 32) hb
-    refine (h2 (i2osp_length r 32) ?_).1
-    rw [os2ip_i2osp]
-    have : r % 256 ^ 32 = r := Nat.mod_eq_of_lt (Nat.lt_trans hr N_lt)
-    rw [this]; exact hr
-  unfold ScalarCodecTies.shape
-  rw [hacc]; rfl
-
-theorem pad_facts (r : Nat) (hr : r < 256 ^ 32) :
-    Prim.subNat 32 (Prim.natBytes r).length = some (32 - (Prim.natBytes r).length) ∧
-    (if 32 - (Prim.natBytes r).length > 0 then
-        some (List.replicate (32 - (Prim.natBytes r).length) 0 ++ Prim.natBytes r) else some (Prim.natBytes r)) =
-      some (i2osp r 32) := by
-  obtain ⟨hl, he⟩ := natBytes_pad 32 r hr
-  constructor
-  · unfold Prim.subNat; simp [hl]
-  · by_cases hpos : 32 - (Prim.natBytes r).length > 0
-    · simp only [hpos, if_true, he]
-    · have h0 : 32 - (Prim.natBytes r).length = 0 := by omega
-      simp only [hpos, if_false]
-      rw [h0] at he
-      simpa using congrArg some he
-
-/-- the body of `Pow` for arbitrary outcomes of `IsZero`/`IsOne` and arbitrary (successful) encodings of the two operands -/
-theorem pow_shape (s : L4) (isZ isO : Bool) (encS encT : Option (List Nat)) (es et : List Nat)
-    (h1 : encS = some es) (h2 : encT = some et) :
-    (if isZ = true then (do
-          let s ← GenMisc.scalar_one s
-          pure s) else (do
-          if isO = true then (do
-              pure s) else (do
-              let t1 ← GenMisc.order
-              let order : Nat := (Spec.os2ip t1)
-              let t2 ← encS
-              let bigS : Nat := (Spec.os2ip t2)
-              let t3 ← encT
-              let bigT : Nat := (Spec.os2ip t3)
-              let bigS : Nat := Prim.bigExp bigS bigT order
-              let bytes : List Nat := (Prim.natBytes bigS)
-              let t4 ← Prim.subNat 32 (bytes).length
-              let l := t4
-              let bytes ← (if l > 0 then (do
-                  let buf : List Nat := (List.replicate l 0)
-                  let buf : List Nat := (buf ++ bytes)
-                  let bytes : List Nat := buf
-                  pure bytes) else (do
-                  pure bytes))
-              let (s, t5) ← GenScalarCodec.scalar_decode s bytes
-              let err : Option String := t5
-              let _ ← (if err ≠ none then (do
-                  let _ ← (none : Option Unit)
-                  pure ()) else (do
-                  pure ()))
-              pure s))) =
-      some (if isZ = true then one else if isO = true then s
-        else (decode s (i2osp (powMod (os2ip es) (os2ip et) N) 32)).2) := by
-  subst h1 h2
-  cases isZ
-  · cases isO
-    · have hN0 : N ≠ 0 := by have := N_gt; omega
-      have hr : os2ip es ^ os2ip et % N < N := Nat.mod_lt _ (by have := N_gt; omega)
-      obtain ⟨hsub, hpad⟩ := pad_facts (os2ip es ^ os2ip et % N) (Nat.lt_trans hr N_lt)
-      simp only [Bool.false_eq_true, if_false, order_val.1, order_val.2, Option.bind_eq_bind, Option.bind_some,
-        Option.pure_def, Prim.bigExp, hN0, hsub, hpad, decode_ok s _ hr, ne_eq, not_true_eq_false,
-        powMod_eq _ _ _ N_gt]
-    · rfl
-  · rfl
-
-theorem pow_tie (s : L4) (t : Option L4) : GenMisc.scalar_pow s t = some (pow s t) := by
-  cases t with
-  | none => rfl
-  | some t =>
-    exact pow_shape s (GenScalarAPI.isZero t) (GenScalarAPI.isOne t) (GenScalarCodec.scalar_encode s)
-      (GenScalarCodec.scalar_encode t) (encode s) (encode t) (ScalarCodecTies.encode_tie s) (ScalarCodecTies.encode_tie t)
 
 theorem base_tie : GenMisc.base Hand.limbOps = some Hand.ElementL.base := rfl
 theorem newElement_tie {α : Type} (F : FieldOps α) : GenMisc.newElement F = some (Hand.Element.identity F) := rfl
@@ -162,142 +19,3 @@ theorem consts_tie :
     GenMisc.elementLength = some Hand.Group.elementLength ∧ GenMisc.order = some Hand.Group.order := ⟨rfl, rfl, rfl, rfl⟩
 
 end MiscTies
-
-/-! ## `Random` -/
-namespace RandomTie
-open MiscTies
-
-/-- the model's recursion over the entropy stream, for an arbitrary zero test and an arbitrary conversion of 32 bytes -/
-def auxG (Z : L4 → Nat) (conv : List Nat → L4) : Nat → List Nat → Nat → Option L4 × Nat
-  | 0, s, used => (none, used + s.length)
-  | fuel+1, s, used =>
-    if s.length < 32 then (none, used + s.length) else
-    let m := conv (s.take 32)
-    if Z m = 1 then auxG Z conv fuel (s.drop 32) (used + 32) else (some m, used + 32)
-
-/-- what one step of the regenerated loop does, abstractly -/
-def StepSpec (Z : L4 → Nat) (conv : List Nat → L4)
-    (step : (List Nat × L4 × List Nat) → Option (Bool × (List Nat × L4 × List Nat))) : Prop :=
-  ∀ buf m rng, buf.length = 32 → step (buf, m, rng) =
-    if Z m = 1 then (if 32 ≤ rng.length then some (true, (rng.take 32, conv (rng.take 32), rng.drop 32)) else none)
-    else some (false, (buf, m, rng))
-
-theorem auxG_some_ge (Z : L4 → Nat) (conv : List Nat → L4) :
-    ∀ (n : Nat) (s : List Nat) (used : Nat) (m : L4) (u : Nat), auxG Z conv n s used = (some m, u) → used + 32 ≤ u := by
-  intro n
-  induction n with
-  | zero => intro s used m u h; simp [auxG] at h
-  | succ n ih =>
-    intro s used m u h
-    unfold auxG at h
-    by_cases hlen : s.length < 32
-    · simp [hlen] at h
-    · simp only [hlen, if_false] at h
-      by_cases hz : Z (conv (s.take 32)) = 1
-      · simp only [hz, if_true] at h
-        have := ih _ _ _ _ h
-        omega
-      · simp only [hz, if_false] at h
-        have := (Prod.mk.inj h).2
-        omega
-
-theorem loop_gen (Z : L4 → Nat) (conv : List Nat → L4) (step) (hs : StepSpec Z conv step) :
-    ∀ (n : Nat) (rng buf : List Nat) (m0 : L4) (fuel used : Nat), Z m0 = 1 → buf.length = 32 → n + 1 ≤ fuel →
-      rng.length / 32 + 1 ≤ n →
-      (Prim.loopWhile fuel (buf, m0, rng) step).map (fun st => (st.2.1, st.2.2)) =
-        match auxG Z conv n rng used with
-        | (some m, u) => some (m, rng.drop (u - used))
-        | (none, _) => none := by
-  intro n
-  induction n with
-  | zero => intro rng buf m0 fuel used _ _ _ h; omega
-  | succ n ih =>
-    intro rng buf m0 fuel used hz hb hf hn
-    obtain ⟨fuel', rfl⟩ : ∃ f', fuel = f' + 1 := ⟨fuel - 1, by omega⟩
-    unfold Prim.loopWhile auxG
-    rw [hs buf m0 rng hb]
-    simp only [hz, if_true]
-    by_cases hlen : rng.length < 32
-    · have : ¬ 32 ≤ rng.length := by omega
-      simp [hlen, this]
-    · have hge : 32 ≤ rng.length := by omega
-      simp only [hge, if_true, hlen, if_false, Option.bind_eq_bind, Option.bind_some]
-      by_cases hz' : Z (conv (rng.take 32)) = 1
-      · simp only [hz', if_true]
-        have hl32 : (rng.take 32).length = 32 := by simp; omega
-        have := ih (rng.drop 32) (rng.take 32) (conv (rng.take 32)) fuel' (used + 32) hz' hl32 (by omega)
-          (by simp; omega)
-        rw [this]
-        cases hh : auxG Z conv n (rng.drop 32) (used + 32) with
-        | mk o u =>
-          cases o with
-          | none => rfl
-          | some m =>
-            have hge2 := auxG_some_ge Z conv n _ _ _ _ hh
-            simp only [List.drop_drop]
-            have : 32 + (u - (used + 32)) = u - used := by omega
-            rw [this]
-      · simp only [hz', if_false]
-        obtain ⟨f'', rfl⟩ : ∃ f'', fuel' = f'' + 1 := ⟨fuel' - 1, by omega⟩
-        have hl32 : (rng.take 32).length = 32 := by simp; omega
-        unfold Prim.loopWhile
-        rw [hs _ _ _ hl32]
-        simp [hz']
-
-/-- the conversion of 32 entropy bytes the loop performs -/
-def conv (b : List Nat) : L4 := FiatScalar.toMontgomery (FiatScalar.reduce (bytesToLimbs b)).1
-
-theorem randomAux_eq : ∀ (n : Nat) (s : List Nat) (used : Nat),
-    Hand.Scalar.randomAux n s used = auxG FiatScalar.isFEZero conv n s used := by
-  intro n
-  induction n with
-  | zero => intro s used; rfl
-  | succ n ih =>
-    intro s used
-    unfold Hand.Scalar.randomAux auxG
-    by_cases hlen : s.length < 32
-    · simp [hlen]
-    · simp only [hlen, if_false, conv, ih]
-      rfl
-
-attribute [local irreducible] FiatScalar.toMontgomery FiatScalar.reduce FiatScalar.isFEZero in
-theorem step_spec : StepSpec FiatScalar.isFEZero conv GenMisc.scalar_random_loop1 := by
-  intro buf m rng hb
-  unfold GenMisc.scalar_random_loop1 Prim.readFull conv
-  by_cases hz : FiatScalar.isFEZero m = 1
-  · by_cases hge : 32 ≤ rng.length
-    · have hl : (rng.take 32).length = 32 := by simp; omega
-      simp [hz, hb, hge, BytesTies.fn_bytesToNonMontgomery _ hl]
-    · simp [hz, hb, hge]
-  · simp [hz]
-
-theorem zero_is_zero : FiatScalar.isFEZero ⟨0, 0, 0, 0⟩ = 1 := by decide +kernel
-
-/-- **the regenerated `Random`**: with the entropy source modelled as the stream `rng` of bytes it will deliver and any
-iteration bound of at least `len(rng)/32 + 2`, it returns exactly what the model returns — the first 32-byte block that
-reduces to a non-zero scalar, and the unread rest of the stream — and panics (`none`) exactly when the model does (the
-stream ends first) -/
-theorem random_tie (s : L4) (rng : List Nat) (fuel : Nat) (hf : rng.length / 32 + 2 ≤ fuel) :
-    GenMisc.scalar_random fuel s rng =
-      match Hand.Scalar.random rng with
-      | (some m, u) => some (m, rng.drop u)
-      | (none, _) => none := by
-  unfold GenMisc.scalar_random Hand.Scalar.random
-  rw [randomAux_eq]
-  have h := loop_gen FiatScalar.isFEZero conv GenMisc.scalar_random_loop1 step_spec (rng.length / 32 + 1) rng
-    (List.replicate 32 0) ⟨0, 0, 0, 0⟩ fuel 0 zero_is_zero (by simp) (by omega) (Nat.le_refl _)
-  simp only [Nat.sub_zero] at h
-  cases hl : Prim.loopWhile fuel (List.replicate 32 0, (⟨0, 0, 0, 0⟩ : L4), rng) GenMisc.scalar_random_loop1 with
-  | none =>
-    rw [hl] at h
-    simp only [Option.map_none] at h
-    simp only [Option.bind_eq_bind, Option.pure_def, hl, Option.bind_none]
-    rw [← h]
-  | some st =>
-    obtain ⟨b, m, r⟩ := st
-    rw [hl] at h
-    simp only [Option.map_some] at h
-    simp only [Option.bind_eq_bind, Option.pure_def, hl, Option.bind_some]
-    rw [← h]
-
-end RandomTie
